@@ -96,7 +96,15 @@ def program(draw, depth):
         c = draw(cond())
         if "ref" in c:
             blk = lambda n: ["block", [{"cond": dict(c), "items": [["def", n, 1, False]]}], [["def", n, 2, False]], True]
-            body = body + [blk("r1"), ["mod", c["ref"], draw(st.integers(0, 2))], blk("r2")]
+            if draw(st.booleans()):
+                body = body + [blk("r1"), ["mod", c["ref"], draw(st.integers(0, 2))], blk("r2")]
+            else:
+                # the same, with clauses that only re-assign an existing node: no node is defined between the two
+                # evaluations of the condition
+                tgt = BASE[-1]
+                mblk = lambda a, b: ["block", [{"cond": dict(c), "items": [["mod", tgt, a]]}], [["mod", tgt, b]], True]
+                body = body + [mblk(1, 2), ["mod", c["ref"], draw(st.integers(0, 2))], mblk(0, 1),
+                               ["mod", c["ref"], draw(st.integers(0, 2))], mblk(2, 0)]
     if draw(st.integers(0, 3)) == 0:
         # a chain of 3-4 directly nested blocks with every truth assignment: an unselected clause anywhere up the chain
         # switches everything below it off
